@@ -171,7 +171,12 @@ class BinaryFileReader:
 
     def read_f32(self) -> float:
         """Read a single f32 value"""
-        return self.read_fmt("f")
+        data = self.read_exactly(4)
+        value = struct.unpack("<f", data)[0]
+        if struct.pack("<f", value) != data:
+            # e.g. a signalling NaN: keep the exact bit pattern
+            value = components.F32Bits(value, data)
+        return value
 
     def read_f64(self) -> float:
         """Read a single f64 value"""
